@@ -16,6 +16,24 @@ Proof.
   now rewrite command_spec, (payload_spec m W C).
 Qed.
 
+Lemma ser_tx_wf t : wf_tx MAX_SIZE t -> ser_tx true t = Ok (enc tx_c t).
+Proof.
+  intros W. unfold ser_tx. cbn [andb]. destruct (has_witness t) eqn:Hw.
+  - destruct W as (_ & _ & _ & _ & _ & _ & _ & _ & [E|E]).
+    + unfold has_witness in Hw. rewrite E in Hw. discriminate.
+    + rewrite E, Nat.ltb_irrefl. reflexivity.
+  - rewrite enc_tx_set_nil, enc_tx. unfold wire_tx. now rewrite Hw.
+Qed.
+Lemma frame_layout_ser H magic m : wfS m -> conform m -> lenZ (payload_enc m) < 2^32 ->
+  to_bytes H magic m = spec_frame H magic m /\ msg_ser m = Ok (payload_enc m).
+Proof.
+  intros W C Hl. split; [now apply frame_layout|].
+  destruct m; try reflexivity.
+  - cbn [wfS wf_msg wf_version] in W. destruct W as (_ & _ & _ & _ & Wf & Wn & Wu & Wh & _).
+    cbn [msg_ser payload_enc]. unfold version_ser.
+    destruct (v_from v), (v_nonce v), (v_subver v), (v_height v); cbn [owf] in *; try contradiction; reflexivity.
+  - cbn [msg_ser payload_enc]. now apply ser_tx_wf.
+Qed.
 Section Top.
 Variable H : bytes -> bytes.
 Variable magic : bytes.
@@ -27,7 +45,7 @@ Lemma roundtrip m rest : wfS m -> high m -> fits m ->
   to_bytes H magic (carried PROTO_VERSION m) = to_bytes H magic m.
 Proof.
   intros W Hh Hf. rewrite <- (norm_msg_carried m W (high_version_high m Hh)).
-  apply frame_roundtrip; try assumption; [now apply wf_msg_wfm | now apply high_version_high].
+  apply frame_roundtrip; auto using wf_msg_wfm, high_version_high.
 Qed.
 Lemma roundtrip_version_low v rest : wfS (MVersion v) -> fits (MVersion v) ->
   ver_height_min <= v_version v < ver_relay_min -> v_version v <> ver_quirk_from -> v_relay v = ver_relay_default ->
@@ -38,7 +56,7 @@ Proof.
   - eapply frame_roundtrip_version_low; eassumption.
   - unfold to_bytes. rewrite (payload_norm (MVersion v)); [reflexivity|]. exists t. split; assumption.
 Qed.
-Lemma stream ms fuel : Forall (fun m => wfS m /\ high m /\ fits m) ms -> (length ms <= fuel)%nat ->
+Lemma stream0 ms fuel : Forall (fun m => wfS m /\ high m /\ fits m) ms -> (length ms <= fuel)%nat ->
   parse_stream H magic fuel (concat (map (to_bytes H magic) ms)) = (expect H magic ms, Ok tt, []).
 Proof.
   intros F Hf. apply stream_roundtrip; try assumption.
@@ -50,6 +68,10 @@ Proof.
   intros F. induction F as [|m t (W & Hh & _) F IH]; [reflexivity|]. cbn [expect map fst].
   rewrite (norm_msg_carried m W (high_version_high m Hh)), IH. reflexivity.
 Qed.
+Lemma stream ms fuel : Forall (fun m => wfS m /\ high m /\ fits m) ms -> (length ms <= fuel)%nat ->
+  parse_stream H magic fuel (concat (map (to_bytes H magic) ms)) = (expect H magic ms, Ok tt, []) /\
+  map fst (expect H magic ms) = map (fun m => Some (carried PROTO_VERSION m)) ms.
+Proof. intros F Hf. split; [now apply stream0 | now apply expect_carried]. Qed.
 Lemma truncated m p q : wfS m -> fits m -> to_bytes H magic m = p ++ q -> q <> [] ->
   parse_frame H magic p = (Err Trunc, []).
 Proof. intros W Hf E NE. eapply frame_truncated; try eassumption. apply command_short. Qed.
@@ -68,16 +90,16 @@ Definition mainnet_magic : bytes := [xf9; xbe; xb4; xd9].
 Lemma ex_header_wf : wf_header ex_header.
 Proof. unfold wf_header, in_i, in_u. cbn [ex_header h_version h_prev h_merkle h_time h_bits h_nonce]. vm_compute. intuition congruence. Qed.
 Lemma ex_headers_wf : wfS ex_headers.
-Proof. split; [repeat constructor; exact ex_header_wf | vm_compute; reflexivity]. Qed.
+Proof. split; [constructor; [exact ex_header_wf|constructor; [exact ex_header_wf|constructor]] | vm_compute; reflexivity]. Qed.
 Lemma ex_addr_wf b : wf_netaddr (ex_addr b).
 Proof. unfold wf_netaddr, in_u, wf_ip. cbn [ex_addr na_services na_ip na_port]. vm_compute. intuition congruence. Qed.
-Lemma ex_version_wf nv relay : in_i 4 nv -> in_u 1 relay -> wfS (ex_version nv relay).
+Lemma ex_version_wf nv relay : in_i 4 nv -> in_u 1 relay -> 209 <= nv -> wfS (ex_version nv relay).
 Proof.
-  intros Hv Hr. unfold wfS, wf_msg, ex_version, wf_version.
+  intros Hv Hr Hm. unfold wfS, wf_msg, ex_version, wf_version.
   cbn [v_version v_services v_time v_to v_from v_nonce v_subver v_height v_relay owf].
   split; [exact Hv|]. split; [vm_compute; intuition congruence|]. split; [vm_compute; intuition congruence|].
   split; [apply ex_addr_wf|]. split; [apply ex_addr_wf|]. split; [vm_compute; intuition congruence|].
-  split; [vm_compute; congruence|]. split; [vm_compute; intuition congruence|exact Hr].
+  split; [vm_compute; congruence|]. split; [vm_compute; intuition congruence|]. split; [exact Hr|exact Hm].
 Qed.
 
 (* F15: two headers: the library writes 161 payload bytes, the protocol has 163 *)
@@ -103,7 +125,7 @@ Lemma version_relay_witness :
   parse_frame sha256d mainnet_magic (to_bytes sha256d mainnet_magic m) = (Ok (Some (ex_version 60002 1)), []) /\
   ex_version 60002 1 <> m.
 Proof.
-  cbv zeta. split; [apply ex_version_wf; vm_compute; intuition congruence|].
+  cbv zeta. split; [apply ex_version_wf; [vm_compute; intuition congruence|vm_compute; intuition congruence|lia]|].
   split.
   { intros H magic E. unfold to_bytes, spec_frame, frame_bytes, spec_frame_of in E. apply app_inv_head in E.
     apply (f_equal (fun l => nth 12 l x00)) in E. vm_compute in E. discriminate. }
@@ -113,3 +135,16 @@ Qed.
 Lemma version_10300_witness :
   parse_frame sha256d mainnet_magic (to_bytes sha256d mainnet_magic (ex_version 10300 1)) = (Ok (Some (ex_version 300 1)), []).
 Proof. vm_compute. reflexivity. Qed.
+Lemma headers_refuted : exists m, wfS m /\
+  length (payload_enc m) = 161%nat /\ length (spec_payload m) = 163%nat /\
+  (forall H magic, to_bytes H magic m <> spec_frame H magic m) /\
+  parse_frame sha256d mainnet_magic (spec_frame sha256d mainnet_magic m) <> (Ok (Some m), []).
+Proof.
+  exists ex_headers. destruct headers_layout_witness as (W & L1 & L2 & NE).
+  split; [exact W|]. split; [exact L1|]. split; [exact L2|]. split; [exact NE|exact headers_parse_witness].
+Qed.
+Lemma version_relay_refuted : exists m m', wfS m /\
+  (forall H magic, to_bytes H magic m <> spec_frame H magic m) /\
+  length (payload_enc m) = S (length (spec_payload m)) /\
+  parse_frame sha256d mainnet_magic (to_bytes sha256d mainnet_magic m) = (Ok (Some m'), []) /\ m' <> m.
+Proof. exists (ex_version 60002 0), (ex_version 60002 1). exact version_relay_witness. Qed.
